@@ -47,6 +47,7 @@ def run(chk, repo):
     chk.attempt(e6, chk, op, covered_by="trace_truncation")
     chk.rule("C18-E8", "construct classes of the package read from the stream only through length-checked reads", 0)
     chk.attempt(e8, chk, op)
+    chk.attempt(positions_from_the_front, chk, repo)
     from ..layout import UnmodelledConstruct
     L = Layouts(repo)
     SWALLOWING = {"Optional", "Select", "GreedyRange", "GreedyBytes", "GreedyString", "Peek", "RepeatUntil", "Default", "NullTerminated", "CString", "StopIf", "IfThenElse", "If", "Switch", "LazyStruct", "Lazy"}
@@ -193,7 +194,7 @@ def e3(chk, op):
     from ..poly import Poly
     from ..shapes import Interp, Leaf, ListOf, ShapeError, _Raise, shape_of_con
     L_ = Layouts(repo)
-    I = Interp(repo)
+    I = Interp(repo, strict=False)
     where_tm = f"{md.relpath}:transform_metadata"
     n_lines = Poly.sym("n_lines")
     for rec_name in ("signal", "processed"):
@@ -271,6 +272,15 @@ def _declared_shape_on_model(repo, md):
     if isinstance(shape, (TupS, ListLit)) and all(isinstance(x, SConst) for x in shape.elts):
         return tuple(x.v for x in shape.elts)
     return None
+
+
+def positions_from_the_front(chk, repo):
+    """C05-F9 shared: records of leader / volume directory / trailer are delimited by declared counts and read where the preceding
+    ones end - nothing is located by sniffing the content or by counting from the end of what was received (either makes a
+    truncated file decode from other bytes instead of failing)"""
+    from ..records import Layouts
+    from .common_rules import declared_multiplicities
+    declared_multiplicities(chk, Layouts(repo), "C05-F9", ("leader", "volume", "trailer"))
 
 
 def e8(chk, op):
